@@ -45,11 +45,9 @@ Lemma sites_always_legal :
   accepted (fun _ => [FAILED]) = true /\ accepted (fun _ => [GATHERING]) = true.
 Proof. vm_compute. repeat split; reflexivity. Qed.
 
-(** the nominated-success site is legal exactly when the component is CONNECTING, CONNECTED or READY *)
-Lemma nominated_success_site :
-  forall cur, (match requests cur (site_nominated_success cur) with Some _ => true | None => false end) =
-              (cs_eqb cur CONNECTING || cs_eqb cur CONNECTED || cs_eqb cur READY).
-Proof. destruct cur; vm_compute; reflexivity. Qed.
+(** the nominated-success site (since fix 363c416 it goes through CONNECTING like its siblings) is legal in every state *)
+Lemma nominated_success_site : accepted site_nominated_success = true.
+Proof. vm_compute. reflexivity. Qed.
 
 Lemma inventory : map (fun x => (fst (fst x), snd x)) call_sites = expected_sites.
 Proof. vm_compute. reflexivity. Qed.
